@@ -106,6 +106,10 @@ def gen(rng, tier, k):
         src = rng.random()  # which pooled list to continue from (resolved at run time)
         x = rng.choice(pool_times) + rng.choice([0.0, 0.0, 0.0, -0.5, 0.5, 100.0, 50.0])
         y = rng.choice(pool_times) + rng.choice([0.0, 0.0, 0.5, 100.0, 250.0, 1000.0])
+        if rng.random() < 0.1:
+            import math
+            x = math.nextafter(x, rng.choice([-math.inf, math.inf]))  # a bound one ulp away from a row's time
+            y = math.nextafter(y, rng.choice([-math.inf, math.inf]))
         ops.append(dict(op=op, src=src, i=rng.randint(-n - 2, n + 2), sl=[rng.choice([None, 0, 1, -1, 2, n]), rng.choice([None, -1, 1, n, n + 3, 0]), rng.choice([None, None, 1, 2, -1])],
                         seed=rng.randrange(10**6), reverse=rng.random() < 0.5, sort=rng.random() < 0.5, x=x, y=max(x, y) if rng.random() < 0.7 else y,
                         ie=[rng.random() < 0.5, rng.random() < 0.5], ie_bool=rng.random() < 0.2, head=rng.random() < 0.5, tail=rng.random() < 0.5,
